@@ -30,7 +30,8 @@ VERIF_FAIL = re.compile(
     r"possible bit shift|cannot show|could not prove|failed this postcondition|"
     r"loop invariant not satisfied|constructed value may fail|unreachable|might not be allowed|"
     r"possible truncation|recursive function may fail to terminate|may not terminate|"
-    r"cannot prove termination|value may be out of range|index out of bounds")
+    r"cannot prove termination|value may be out of range|index out of bounds|unable to prove|"
+    r"closure .* (requires|ensures)|call to non-static function fails to satisfy")
 RLIMIT = re.compile(r"[Rr]esource limit|rlimit|timed? ?out|time limit")
 
 
